@@ -193,6 +193,7 @@ fn main() {
             // (several of them slice the input) are evaluated as they are in an application that logs
             dltverif::oracle::install_logger();
             let run = Run::new(&root(), p.id, tier, seed, p.level);
+            dltverif::runner::spawn_watchdog(p.id.to_string());
             if std::panic::catch_unwind(std::panic::AssertUnwindSafe(|| (p.run)(&run))).is_err() {
                 println!("INCONCLUSIVE property={} the harness itself panicked (see stderr); this is not a verdict about dlt-core", p.id);
                 std::process::exit(2);
